@@ -130,8 +130,7 @@ AuxHashMap<A>* AuxHashMap<A>::deserialize(std::istream& is, uint8_t lgConfigK,
     }
   }
 
-  if (auxHashMap->getAuxCount() != auxCount) {
-    make_deleter()(auxHashMap);
+  if (auxHashMap->getAuxCount() != auxCount) { // aux_ptr releases the map
     throw std::invalid_argument("Deserialized AuxHashMap has wrong number of entries");
   }
 
